@@ -370,6 +370,208 @@ def _dispatch_body(prog, C, f):
     return node, sn, None
 
 
+def _unroll_static_loops(C, fnode, sn):
+    """Copy of a function in which `for <targets> in <static table>[.items() /
+    .values() / .keys()]` over a class- or module-level dict / tuple literal is
+    replaced by one copy of the body per row with the targets substituted;
+    within each copy `x = getattr(self, "name")` aliases and local dict
+    literals looked up with constant keys are folded."""
+    import copy
+    from .idioms import _subst_names, fold_constants
+
+    def table(e):
+        how = None
+        if isinstance(e, ast.Call) and isinstance(e.func, ast.Attribute) and \
+                e.func.attr in ("items", "values", "keys") and not e.args:
+            how, e = e.func.attr, e.func.value
+        v = None
+        if isinstance(e, ast.Attribute) and isinstance(e.value, ast.Name) and \
+                e.value.id in (sn, "cls", C.name):
+            v = _table_entry(C, e.attr)
+        elif isinstance(e, ast.Name):
+            v = _table_entry(C, e.id)
+        elif isinstance(e, (ast.Tuple, ast.List, ast.Dict)):
+            v = e
+        if isinstance(v, ast.Dict) and all(k is not None for k in v.keys):
+            how = how or "keys"
+            rows = {"items": [ast.Tuple(elts=[k, x], ctx=ast.Load())
+                              for k, x in zip(v.keys, v.values)],
+                    "values": list(v.values), "keys": list(v.keys)}[how]
+            return rows
+        if isinstance(v, (ast.Tuple, ast.List)) and how is None:
+            return list(v.elts)
+        return None
+
+    def bind(target, row, out):
+        if isinstance(target, ast.Name):
+            out[target.id] = row
+            return True
+        if isinstance(target, (ast.Tuple, ast.List)) and \
+                isinstance(row, (ast.Tuple, ast.List)) and \
+                len(target.elts) == len(row.elts):
+            return all(bind(t, r, out) for t, r in zip(target.elts, row.elts))
+        return False
+
+    def fold_copy(stmts):
+        """sequential folding of aliases inside one unrolled copy"""
+        env = {}
+
+        class F(ast.NodeTransformer):
+            def visit_Call(self, n):
+                self.generic_visit(n)
+                if isinstance(n.func, ast.Name) and n.func.id == "getattr" and \
+                        len(n.args) == 2 and isinstance(n.args[1], ast.Constant) and \
+                        isinstance(n.args[1].value, str):
+                    return ast.copy_location(ast.Attribute(
+                        value=n.args[0], attr=n.args[1].value, ctx=ast.Load()), n)
+                if isinstance(n.func, ast.Attribute) and n.func.attr == "get" and \
+                        1 <= len(n.args) <= 2 and isinstance(n.args[0], ast.Constant):
+                    d = n.func.value
+                    if isinstance(d, ast.Name) and isinstance(env.get(d.id), ast.Dict):
+                        d = env[d.id]
+                    if isinstance(d, ast.Dict) and all(
+                            isinstance(k, ast.Constant) for k in d.keys):
+                        for k, v in zip(d.keys, d.values):
+                            if k.value == n.args[0].value:
+                                return v
+                        return n.args[1] if len(n.args) == 2 else \
+                            ast.copy_location(ast.Constant(None), n)
+                if isinstance(n.func, ast.Name) and isinstance(
+                        env.get(n.func.id), ast.Attribute):
+                    n.func = copy.deepcopy(env[n.func.id])
+                return n
+
+            def visit_Subscript(self, n):
+                self.generic_visit(n)
+                d = n.value
+                if isinstance(d, ast.Name) and isinstance(env.get(d.id), ast.Dict):
+                    d = env[d.id]
+                if isinstance(d, ast.Dict) and isinstance(n.slice, ast.Constant) and \
+                        isinstance(n.ctx, ast.Load) and all(
+                        isinstance(k, ast.Constant) for k in d.keys):
+                    for k, v in zip(d.keys, d.values):
+                        if k.value == n.slice.value:
+                            return v
+                return n
+        out = []
+        for st in stmts:
+            st = F().visit(st)
+            if isinstance(st, ast.Assign) and len(st.targets) == 1 and \
+                    isinstance(st.targets[0], ast.Name):
+                if isinstance(st.value, (ast.Dict, ast.Attribute)):
+                    env[st.targets[0].id] = st.value
+                else:
+                    env.pop(st.targets[0].id, None)
+            out.append(st)
+        return out, env
+
+    node = copy.deepcopy(fnode)
+    outer_env = {}
+    for st in node.body:
+        if isinstance(st, ast.Assign) and len(st.targets) == 1 and \
+                isinstance(st.targets[0], ast.Name) and isinstance(st.value, ast.Dict):
+            outer_env[st.targets[0].id] = st.value
+    stores = {}
+    for n in ast.walk(node):
+        if isinstance(n, ast.Name) and isinstance(n.ctx, ast.Store):
+            stores[n.id] = stores.get(n.id, 0) + 1
+    outer_env = {k: v for k, v in outer_env.items() if stores.get(k) == 1}
+    n_unrolled = 0
+
+    def go(stmts):
+        nonlocal n_unrolled
+        out = []
+        for st in stmts:
+            if isinstance(st, ast.For) and not st.orelse:
+                rows = table(st.iter)
+                if rows is not None and not any(
+                        isinstance(x, (ast.Break, ast.Continue)) for x in ast.walk(st)):
+                    ok = True
+                    copies = []
+                    for row in rows:
+                        m = {}
+                        if not bind(st.target, row, m):
+                            ok = False
+                            break
+                        body = [_subst_names(b, m) for b in st.body]
+                        # local dict literals of the enclosing function
+                        body = [_subst_names(b, {}) for b in body]
+                        pre = [ast.Assign(targets=[ast.Name(id=k, ctx=ast.Store())],
+                                          value=copy.deepcopy(v))
+                               for k, v in outer_env.items()]
+                        folded, _ = fold_copy(pre + body)
+                        folded = folded[len(pre):]
+                        wrap = ast.Module(body=folded, type_ignores=[])
+                        wrap = fold_constants(_fold_none_tests(wrap), {})
+                        copies.extend(wrap.body)
+                    if ok:
+                        n_unrolled += 1
+                        out.extend(copies)
+                        continue
+            for fld in ("body", "orelse", "finalbody"):
+                if isinstance(getattr(st, fld, None), list) and \
+                        not isinstance(st, (ast.FunctionDef, ast.ClassDef)):
+                    setattr(st, fld, go(getattr(st, fld)))
+            out.append(st)
+        return out
+    node.body = go(node.body)
+    return ast.fix_missing_locations(node), n_unrolled
+
+
+def _fold_none_tests(node):
+    from .rules_c15 import _fold_identity_tests
+    return _fold_identity_tests(node)
+
+
+def l11(run: Run, prog: Program):
+    """A method with several length parameters (rqa_summary: l_min, v_min)
+    forwards each of them to the measure whose parameter has the same role: it
+    never hands its own parameter p to a callee parameter q != p while it has
+    a parameter q of its own - also when the calls are driven by a class-level
+    table and getattr."""
+    from .idioms import bind_call_args
+    rp = prog.classes.get("RecurrencePlot")
+    if rp is None:
+        raise AnalysisError("RecurrencePlot vanished")
+    n = 0
+    for C in [c for c in prog.classes.values() if rp in c.mro]:
+        for name, f in sorted(C.methods.items()):
+            if f.kind != "method" or len(f.params) < 3:
+                continue
+            sn = f.params[0]
+            own = set(f.params[1:])
+            try:
+                node, n_un = _unroll_static_loops(C, f.node, sn)
+            except Exception:        # noqa: unreadable loop: judged as written
+                node, n_un = f.node, 0
+            for c in ast.walk(node):
+                if not (isinstance(c, ast.Call) and isinstance(c.func, ast.Attribute)
+                        and isinstance(c.func.value, ast.Name) and c.func.value.id == sn):
+                    continue
+                g = prog.lookup(C, c.func.attr)
+                if g is None or g.kind != "method":
+                    continue
+                b = bind_call_args(g.node, c)
+                if b is None:
+                    continue
+                for q, a in b.items():
+                    if q == g.params[0] or not isinstance(a, ast.Name) or a.id not in own:
+                        continue
+                    n += 1
+                    bad = a.id != q and q in own
+                    run.oblige("L11", f"{f.qualname}->{g.name}({q}={a.id})", not bad,
+                               sample={"where": f"{f.module.relpath}:{c.lineno}",
+                                       "unrolled_loops": n_un})
+                    if bad:
+                        run.add("L11", f"{f.qualname}/{g.name}/{q}<-{a.id}",
+                                f"{f.module.relpath}:{getattr(c, 'lineno', f.node.lineno)}",
+                                f"{f.qualname} hands its parameter `{a.id}` to "
+                                f"{g.qualname}, whose parameter is `{q}`, although it has a "
+                                f"parameter `{q}` of its own: the measure is evaluated "
+                                f"with the minimal length of the other line type")
+    run.floor("L11 forwarded parameters", n, 3)
+
+
 def l1_python(run: Run, prog: Program, wr):
     rp = prog.classes.get("RecurrencePlot")
     if rp is None:
@@ -689,6 +891,9 @@ def check(run: Run, prog: Program, cy: CyProgram, sites):
              "its sequential wrappers)")
     run.rule("L7", "the three histogram methods consult the same mode flags (storage "
              "mode, missing-value handling) before choosing a kernel")
+    run.rule("L11", "summary methods forward each minimal length to the measure "
+             "parameter of the same role (l_min / v_min / w_min not crossed), also "
+             "through table-driven getattr loops")
     run.rule("L5", "derived RQA measures read the histograms only")
     run.explanation = (
         "Structural necessary conditions of C08: storage-mode / missing-value / "
@@ -706,6 +911,7 @@ def check(run: Run, prog: Program, cy: CyProgram, sites):
     l8(run, cy)
     l9(run, cy)
     l5(run, prog)
+    l11(run, prog)
     from .rules_c06 import p1_restricted
     run.rule("L6", "the memoised histograms are never edited in place")
     p1_restricted(run, "L6", prog,
